@@ -15,7 +15,7 @@ Shape B.  Families of shards:
 * ``ttf``    -- embedded TrueType cmap tables (formats 0, 4, 12; platform filtering) under Adobe-Identity.
 * ``coll``   -- predefined CMap + character collection wiring through a document; odd-length identity strings.
 * ``fb``     -- ToUnicode maps that omit shown codes: fall back to the collection / the embedded TrueType cmap.
-* ``c2g``    -- CIDToGIDMap (name, plain and Flate streams; identity, shifted, permuted) with an embedded TrueType cmap.
+* ``c2g``    -- CIDToGIDMap (name, plain and Flate streams; identity, shifted, permuted, several CIDs per glyph) with an embedded TrueType cmap.
 * ``mixres`` -- one /Font resource dictionary listing fonts partly by reference, partly as direct dictionaries (two
                ToUnicode composite fonts, a predefined-CMap composite font, a simple font), every order: each font is
                decoded with its own CMap / ToUnicode / W / DW.
@@ -24,6 +24,8 @@ Shape B.  Families of shards:
 * ``tj``     -- every TJ array of <= 4 elements over {two-glyph string, one-glyph string, +250, -500} followed by
                another TJ and a Tj, for vertical and horizontal composite fonts with default and explicit metrics:
                pen displacement (w - Tj/1000) * Tfs along the writing direction, the other coordinate unchanged.
+* ``usecmap``-- (public API, own process each) a FileCMap that imports a predefined CMap with usecmap and then defines
+               codes of its own: the cached predefined CMap still decodes as before.
 * ``one``    -- several composite fonts in one document, one fresh process per case: an -H and a -V font of one
                collection in both load orders (same page / two pages); two Type0 fonts sharing one descendant
                CIDFont, one with ToUnicode and one without, in every load order.
@@ -71,8 +73,9 @@ META = {
     "assumptions": [
         "CMap pickles are data: the reference reads the same pickled code tables (by its own loader and a flattened "
         "longest-defined-code walk); only the codec family ties them to an independent source (Python codecs)",
-        "bytes that do not begin a defined code: only the CIDs before the first such byte are judged (the statement "
-        "does not say how undefined codes resynchronise); notdef ranges are not modelled",
+        "undefined codes: in CMaps with one- and two-byte codes a byte that begins two-byte codes followed by an "
+        "unmapped trail byte is an undefined two-byte code (skipped, decoding restarts after it); for any other byte "
+        "that begins no defined code only the CIDs before it are judged; notdef ranges are not modelled",
         "embedded (non-predefined) encoding CMap streams (the statement names the predefined CMaps only; notdef and "
         "cidrange of embedded CMaps therefore too) and duplicate ToUnicode sources are not generated",
         "vertical glyph boxes are not judged except the horizontal origin shift -vx of explicit W2 entries; "
@@ -137,6 +140,7 @@ def ref_decode(name: str, s: bytes) -> Tuple[List[int], bool]:
     if name in IDENTITY1:
         return list(s), True
     flat, maxlen = flat_codes(name)
+    leads = lead_bytes(name) if maxlen == 2 else frozenset()
     out: List[int] = []
     p = 0
     while p < len(s):
@@ -147,8 +151,24 @@ def ref_decode(name: str, s: bytes) -> Tuple[List[int], bool]:
                 p += L
                 break
         else:
+            if s[p] in leads:
+                # CMaps with one- and two-byte codes only: the byte begins two-byte codes, so the (undefined) code is
+                # two bytes long -- ISO 32000-1 9.7.6.3: an invalid code that matches a codespace range in its first
+                # byte consumes the length of that range; decoding then restarts with the next byte
+                p += 2
+                continue
             return out, False
     return out, True
+
+
+_LEADS: Dict[str, frozenset] = {}
+
+
+def lead_bytes(name: str) -> frozenset:
+    if name not in _LEADS:
+        flat, _ = flat_codes(name)
+        _LEADS[name] = frozenset(c[0] for c in flat if len(c) == 2)
+    return _LEADS[name]
 
 
 def all_cmap_names() -> List[str]:
@@ -1401,7 +1421,7 @@ def classify_fb(kind, e, got):
 # ------------------------------------------------------------------ CIDToGIDMap with an embedded TrueType cmap
 # CIDFontType2: the glyph of a CID is CIDToGIDMap[CID]; the TrueType cmap maps characters to glyphs, so the text of
 # a CID is the character whose glyph index is CIDToGIDMap[CID].
-C2G_MAPS = ["identity-name", "identity-stream", "shifted", "permuted", "flate-permuted"]
+C2G_MAPS = ["identity-name", "identity-stream", "shifted", "permuted", "flate-permuted", "many-to-one", "all-to-one"]
 C2G_LAYOUTS = ["ms-unicode", "unicode-platform"]
 
 
@@ -1424,6 +1444,10 @@ def build_c2g(mapkind: str, lay: str):
         table = list(range(ncid))
     elif mapkind == "shifted":
         table = [(c + 3) % ncid for c in range(ncid)]
+    elif mapkind == "many-to-one":
+        table = [5 + (c % 4) if c % 3 else 20 + (c % 2) for c in range(ncid)]  # every glyph is shared by several CIDs
+    elif mapkind == "all-to-one":
+        table = [6] * ncid
     else:
         table = [(c * 7 + 5) % ncid for c in range(ncid)]  # a permutation of 0..31
     extra: Dict[str, Any] = {}
@@ -1639,6 +1663,50 @@ def classify_mixres(kind, e, got):
     return None
 
 
+# ------------------------------------------------------------------ a derived CMap must not change the predefined one
+USECMAP_NAMES = ["90ms-RKSJ-H", "GBK-EUC-H", "UniJIS-UTF16-H", "KSCms-UHC-V"]
+
+
+def check_usecmap(name: str):
+    """Public API: a FileCMap that does `/<name> usecmap` and then defines codes of its own (redefining mapped codes,
+    defining unmapped ones under an existing lead byte, adding a new lead byte).  The process-wide predefined CMap
+    must afterwards decode exactly as before.  -> [(sig, expected, observed, what)], outcome"""
+    from io import BytesIO
+
+    from pdfminer.cmapdb import CMapDB, CMapParser, FileCMap
+
+    flat, maxlen = flat_codes(name)
+    two = sorted(c for c in flat if len(c) == 2)
+    picks = [two[0], two[len(two) // 2], two[-1]]
+    lead = picks[1][0]
+    unmapped = next(bytes((lead, t)) for t in range(1, 256) if bytes((lead, t)) not in flat)
+    sample = b"".join(two[:: max(1, len(two) // 64)]) + b"".join(picks) + b"A"
+    want, _ = ref_decode(name, sample)
+    derived = FileCMap(CMapName="Derived")
+    bad = []
+    try:
+        CMapParser(derived, BytesIO(b"begincmap /%s usecmap endcmap" % name.encode())).run()
+        if list(derived.decode(sample)) != want:
+            bad.append(("C07/usecmap-does-not-import-codes", want[:8], list(derived.decode(sample))[:8], f"derived CMap after /{name} usecmap"))
+        for k, c in enumerate(picks + [unmapped]):
+            derived.add_code2cid(c.decode("latin-1"), 7 + k)
+        got_d = list(derived.decode(b"".join(picks + [unmapped])))
+        if got_d != [7, 8, 9, 10]:
+            bad.append(("C07/derived-cmap-own-codes", [7, 8, 9, 10], got_d, "codes defined by the derived CMap itself"))
+        got = list(CMapDB.get_cmap(name).decode(sample))
+        got_u = list(CMapDB.get_cmap(name).decode(unmapped + b"A"))
+    except Exception as e:  # noqa
+        return [("C07/usecmap-exception:" + exc_sig(e), "no exception", f"{type(e).__name__}: {e}", "derived CMap raised")], ("exc",)
+    if got != want:
+        bad.append(("C07/derived-cmap-changes-cached-predefined-cmap", want[-6:], got[-6:], f"{name} after a derived CMap redefined codes {[c.hex() for c in picks]}"))
+    want_u, _ = ref_decode(name, unmapped + b"A")
+    if got_u != want_u:
+        bad.append(("C07/derived-cmap-changes-cached-predefined-cmap", want_u, got_u, f"{name} after a derived CMap defined the unmapped code {unmapped.hex()}"))
+    if name in CMapDB._cmap_cache and _cmap_fingerprint(name)[0] != len(flat):
+        CMapDB._cmap_cache.pop(name, None)
+    return bad, (name, tuple(got[-4:]))
+
+
 def odd_cases():
     for enc in ("Identity-H", "Identity-V", "DLIdent-H"):
         for s in (b"\x00\x41\x00", b"\x00", b"\x00\x41\x00\x42\x43"):
@@ -1752,6 +1820,7 @@ def shards(tier):
     # several-fonts-in-one-document cases exercise process-wide / document-wide caches: each is its own shard (the
     # runner gives every shard a fresh process), so the case's call history is exactly the case
     out += [("one",) + c for c in hv_cases()] + [("one",) + c for c in shared_cases()]
+    out += [("usecmap", n) for n in USECMAP_NAMES]
     return out
 
 
@@ -1766,6 +1835,14 @@ def run_shard(shard, tier, st):
     elif fam == "codec":
         run_codec(shard[1], shard[2], shard[3], st)
         st.sample({"family": "codec", "cmap": shard[1], "codec": shard[2], "collection": shard[3]})
+    elif fam == "usecmap":
+        bad, outcome = check_usecmap(shard[1])
+        st.states += 1
+        st.transitions += 1
+        st.traces += 1
+        st.case(("usecmap", shard[1]), nontrivial=True, outcome=outcome)
+        for sig, e, g, what in bad:
+            st.violation(sig, {"family": "usecmap", "cmap": shard[1]}, e, g, what)
     elif fam == "one":
         c = tuple(shard[1:])
         pdf, exp, vertical, sigbase, desc, classify = doc_case(c)
@@ -1892,6 +1969,10 @@ def replay(case):
         for sig, i, e, g, what in viol:
             if i == case["index"]:
                 out.append({"signature": sig, "expected": repr(e), "observed": repr(g)})
+    elif fam == "usecmap":
+        bad, _ = check_usecmap(case["cmap"])
+        for sig, e, g, what in bad:
+            out.append({"signature": sig, "expected": repr(e), "observed": repr(g)})
     elif fam == "cache":
         from pdfminer.cmapdb import CMapDB
 
